@@ -62,7 +62,9 @@ func runN2N(tier string, shard int) partResult {
 		}
 	}
 	gen(nil)
-	noneWait, nones := 1500*time.Millisecond, 0
+	// (no short wall-clock oracle: an answer that exists arrives within microseconds on an idle
+	// machine, but the machine may be anything but idle; only a 30 s silence counts as "none")
+	noneWait, nones := 30*time.Second, 0
 	if os.Getenv("N2N_DEBUG") != "" {
 		strs = [][]string{{"ok", "ok", "down"}, {"ok", "err"}, {"ok"}}
 	}
@@ -147,8 +149,8 @@ func runN2N(tier string, shard int) partResult {
 								// microseconds when it comes at all)
 								verdict = "NONE"
 								nones++
-								if nones >= 3 {
-									noneWait = 20 * time.Millisecond // already established; do not crawl
+								if nones >= 1 {
+									noneWait = 200 * time.Millisecond // a silence is already established (and reported): do not crawl
 								}
 							}
 						}
@@ -254,7 +256,7 @@ func runN2NFilters() partResult {
 					} else {
 						select {
 						case verdict = <-ch:
-						case <-time.After(1500 * time.Millisecond):
+						case <-time.After(30 * time.Second):
 							verdict = "NONE"
 						}
 					}
